@@ -298,6 +298,27 @@ def run_unary(case):
             c.cmp(lab, name, got, ref, tol)
             if not np.array_equal(A, A0):
                 c.bad(lab + "/inputs", "inputs modified", "modified", "unchanged")
+            # the same tensors in other memory layouts (Fortran order, the transposed view that transpose() / cof() hand out, a
+            # strided view): same values, inputs unchanged; and result buffers in those layouts
+            if A.ndim > order:
+                perm = tuple(range(A.ndim))[::-1]
+                lays = {"F": np.asfortranarray(A), "transposed-view": np.ascontiguousarray(A.transpose(perm)).transpose(perm), "strided": np.repeat(A, 2, axis=-1)[..., ::2]}
+                for ll, Al in lays.items():
+                    keepl = Al.copy()
+                    c.cmp(f"{lab}/layout={ll}", name + " for the same tensors in another memory layout", fcall(Al), ref, tol)
+                    c.trans += 1
+                    if not np.array_equal(Al, keepl):
+                        c.bad(f"{lab}/layout={ll}/inputs", "inputs modified", "modified", "unchanged")
+                if outbuf and np.ndim(ref) > 1:
+                    rperm = tuple(range(np.ndim(ref)))[::-1]
+                    for ll, buf in (("F", np.asfortranarray(np.full_like(ref, 1.5))), ("transposed-view", np.full(np.shape(ref)[::-1], 1.5).transpose(rperm))):
+                        try:
+                            r = outbuf(A, buf)
+                        except Exception as ex:  # noqa  (a buffer layout the routine refuses loudly is not judged)
+                            continue
+                        c.trans += 1
+                        c.cmp(f"{lab}/out-layout={ll}", name + " with an out= buffer in another memory layout", buf, ref, tol)
+                        c.cmp(f"{lab}/out-layout={ll}/ret", name + " returned with an out= buffer in another memory layout", r, ref, tol)
             # a result handed out earlier keeps its values when the routine is called again for other tensors of the same shape
             if isinstance(got, np.ndarray) and got.ndim > 0:
                 keep = got.copy()
